@@ -8,7 +8,6 @@ import (
 	cmtproto "github.com/cometbft/cometbft/proto/tendermint/types"
 	db "github.com/cosmos/cosmos-db"
 
-	"cosmossdk.io/log"
 	"cosmossdk.io/math"
 
 	"github.com/cosmos/cosmos-sdk/baseapp"
@@ -87,10 +86,8 @@ func DefaultProviderConfig(n int) ProviderConfig {
 // Provider wraps a provider application and its driver.
 type Provider struct {
 	*Chain
-	PApp     *appProvider.App
-	Cfg      ProviderConfig
-	Accounts map[string]*Account // by name: validators' operator accounts ("v0"...) and users
-	AccOrder []string
+	PApp *appProvider.App
+	Cfg  ProviderConfig
 }
 
 var GenesisTime = time.Date(2025, 1, 1, 0, 0, 0, 0, time.UTC)
@@ -101,12 +98,19 @@ func ConsKeyName(val string) string { return "prov-" + val }
 // NewProvider builds the provider app from cfg and runs InitChain (no block produced yet).
 func NewProvider(cfg ProviderConfig, keys *KeyStore) *Provider {
 	enc := appProvider.MakeTestEncodingConfig()
-	app := appProvider.New(log.NewNopLogger(), db.NewMemDB(), nil, true, simtestutil.EmptyAppOptions{}, baseapp.SetChainID(cfg.ChainID))
+	app := appProvider.New(AppLogger(), db.NewMemDB(), nil, true, simtestutil.EmptyAppOptions{}, baseapp.SetChainID(cfg.ChainID))
 	gs := appProvider.NewDefaultGenesisState(enc.Codec)
 	cdc := app.AppCodec()
 
-	p := &Provider{PApp: app, Cfg: cfg, Accounts: map[string]*Account{}}
-	p.Chain = &Chain{App: app, ChainID: cfg.ChainID, Keys: keys}
+	p := &Provider{PApp: app, Cfg: cfg}
+	p.Chain = &Chain{App: app, ChainID: cfg.ChainID, Keys: keys, Accounts: map[string]*Account{}}
+	p.Chain.SeqOf = func(addr sdk.AccAddress) uint64 {
+		a := app.AccountKeeper.GetAccount(p.Ctx(), addr)
+		if a == nil {
+			return 0
+		}
+		return a.GetSequence()
+	}
 
 	var genAccs []authtypes.GenesisAccount
 	var balances []banktypes.Balance
@@ -222,27 +226,6 @@ func NewProvider(cfg ProviderConfig, keys *KeyStore) *Provider {
 
 // GovAddr returns the governance authority address.
 func GovAddr() string { return authtypes.NewModuleAddress(govtypes.ModuleName).String() }
-
-// Seq returns the committed sequence number of an account.
-func (p *Provider) Seq(acc *Account) uint64 {
-	a := p.PApp.AccountKeeper.GetAccount(p.Ctx(), acc.Addr())
-	if a == nil {
-		return 0
-	}
-	return a.GetSequence()
-}
-
-// QueueTx signs msgs with the named account and queues the tx for the next block. At most one tx per
-// account and block may be queued (the sequence is taken from committed state).
-func (p *Provider) QueueTx(name, accName string, msgs ...sdk.Msg) {
-	acc := p.Accounts[accName]
-	if acc == nil {
-		panic(HarnessError{Msg: "unknown account " + accName})
-	}
-	bz, err := p.SignTx(acc, p.Seq(acc), msgs...)
-	Must(err, "sign tx")
-	p.Pending = append(p.Pending, PendingTx{Name: name, Bytes: bz})
-}
 
 // Dispatch executes msg through the message router on a cache-branched context positioned at the end of
 // the last committed block and writes the branch only if the handler succeeds (what x/gov does with the
